@@ -509,6 +509,10 @@ func (x *Unit) namedSentinel(name string) T {
 
 func (x *Unit) readVar(st *State, o types.Object) Val {
 	if ref, ok := x.boxed[o]; ok {
+		if isFlatStruct(o.Type()) {
+			// a struct whose address is taken lives field-wise in the heap, like every object reached through a pointer
+			return x.readStructAt(st, ref, o.Type())
+		}
 		srt := x.u.SortOf(o.Type())
 		h := x.heapGet(st, "ptr:"+string(srt), ArraySort(SInt, srt))
 		return Val{Select(h, ref), o.Type()}
@@ -531,6 +535,10 @@ func (x *Unit) readVar(st *State, o types.Object) Val {
 
 func (x *Unit) writeVar(st *State, o types.Object, v Val) {
 	if ref, ok := x.boxed[o]; ok {
+		if isFlatStruct(o.Type()) {
+			x.writeStructAt(st, ref, o.Type(), v.T)
+			return
+		}
 		srt := x.u.SortOf(o.Type())
 		key := "ptr:" + string(srt)
 		h := x.heapGet(st, key, ArraySort(SInt, srt))
